@@ -196,6 +196,8 @@ TABLE.update({
 TABLE.update({
     "c01_power_left_assoc.diff": ("box", "contracts.cparse:parse_c:parse_arg_sets", None),
     "c01_transformer_chain_right_fold.diff": ("box", "contracts.cparse:parse_c:parse_arg_sets", None),
+    "c16_parse_range_bounds_swapped.diff": ("box", "contracts.cparse:statement_c:statement_arg_sets", None),
+    "c16_parse_step_ignored.diff": ("box", "contracts.cparse:statement_c:statement_arg_sets", None),
     "c11_octal_parsed_as_decimal.diff": ("box", "contracts.c11:parse_number:parse_number_arg_sets", None),
     "c11_constant_value_dropped.diff": ("contracts.c11", "_configure_constant", "scalar"),
     "c11_bundle_constant_slots_collide.diff": ("contracts.c11", "_configure_constant", "bundle constant of 2"),
